@@ -20,6 +20,7 @@ import (
 	"errors"
 	"fmt"
 	"regexp/syntax"
+	"sort"
 	"sync"
 )
 
@@ -29,6 +30,8 @@ import (
 type typeDictionary struct {
 	mu   sync.Mutex
 	dict map[Node]map[string]*Typedef
+	// run counts the calls of resolveTypedefs, i.e. of Process.
+	run int
 	// identities contains a dictionary of resolved identities.
 	identities identityDictionary
 }
@@ -122,7 +125,24 @@ func (d *typeDictionary) resolveTypedefs() []error {
 	// When resolve typedefs, we may need to look up other typedefs.
 	// We gather all typedefs into a slice so we don't deadlock on
 	// typeDict.
-	for _, td := range d.typedefs() {
+	d.run++
+	tds := d.typedefs()
+	// The dictionary is walked in random order. Resolve the typedefs in
+	// the order of their positions, so that which typedef of a cycle
+	// reports it does not change from run to run.
+	sort.SliceStable(tds, func(i, j int) bool {
+		a, b := tds[i].Source, tds[j].Source
+		switch {
+		case a == nil || b == nil:
+			return a == nil && b != nil
+		case a.file != b.file:
+			return a.file < b.file
+		case a.line != b.line:
+			return a.line < b.line
+		}
+		return a.col < b.col
+	})
+	for _, td := range tds {
 		errs = append(errs, td.resolve(d)...)
 	}
 	return errs
@@ -139,10 +159,16 @@ func (t *Typedef) resolve(d *typeDictionary) []error {
 	if t.resolving {
 		return []error{fmt.Errorf("%s: typedef %s has a circular dependency", Source(t), t.Name)}
 	}
+	if t.failedIn == d.run && len(t.failed) > 0 {
+		// Already found unresolvable in this run of Process; the work
+		// is not repeated for every reference to t.
+		return t.failed
+	}
 	t.resolving = true
 	defer func() { t.resolving = false }()
 
 	if errs := t.Type.resolve(d); len(errs) != 0 {
+		t.failed, t.failedIn = errs, d.run
 		return errs
 	}
 
@@ -440,7 +466,17 @@ check:
 	// so we have to check equality the hard way.
 looking:
 	for _, ut := range t.Type {
-		errs = append(errs, ut.resolve(d)...)
+		// Members that name the same broken typedef report the same
+		// errors; keep one of each.
+	reported:
+		for _, err := range ut.resolve(d) {
+			for _, e := range errs {
+				if e.Error() == err.Error() {
+					continue reported
+				}
+			}
+			errs = append(errs, err)
+		}
 		if ut.YangType != nil {
 			for _, yt := range y.Type {
 				if ut.YangType.Equal(yt) {
